@@ -16,11 +16,15 @@ class Deadlock(Exception):
 
 
 class Scheduler:
-    def __init__(self, files, workloads, schedule, timeout=60.0, functions=None, contexts=None, raw_threads=False):
+    def __init__(self, files, workloads, schedule, timeout=60.0, functions=None, contexts=None, raw_threads=False, opcodes=False):
         """functions: optional {filename: set of function names}; lines of those functions are yield points
         too. contexts: optional list of contextvars.Context copies, one per worker, to run the workload in
         (threads started with context propagation: asyncio.to_thread, copy_context().run on a pool thread)"""
         self.functions = functions or {}
+        # opcodes: a set of (file, line): on these lines of the chosen FILES every bytecode instruction is a yield point (a
+        # read-modify-write written on one source line, `n += 1`, can be split)
+        self.opcodes = opcodes        # falsy, or a set of (file, line)
+        self.hot_hits = []            # for a solo run: the indices of the yield points that are bytecodes of hot lines
         # workers started with `_thread.start_new_thread` (what C extensions and some servers do): alive, but not
         # listed by `threading.enumerate()`
         self.raw_threads = raw_threads
@@ -44,6 +48,9 @@ class Scheduler:
     def _global(self, frame, event, arg):
         if event == "call":
             fn = frame.f_code.co_filename
+            if fn in self.files and self.opcodes:
+                frame.f_trace_opcodes = True
+                return self._local_op
             if fn in self.files or frame.f_code.co_name in self.functions.get(fn, ()):
                 return self._local
         return None
@@ -52,6 +59,16 @@ class Scheduler:
         if event == "line":
             self._yield_point()
         return self._local
+
+    def _local_op(self, frame, event, arg):
+        # every line is a yield point as usual; on the "hot" lines (a set of (file, line)) every bytecode is one as well
+        if event == "line":
+            self._yield_point()
+            self.hot_hits.append(None)
+        elif event == "opcode" and (frame.f_code.co_filename, frame.f_lineno) in self.opcodes:
+            self._yield_point()
+            self.hot_hits.append(self.points[self.tl.tid])
+        return self._local_op
 
     def _yield_point(self):
         tid = self.tl.tid
